@@ -5,6 +5,7 @@
   sortsBases       LIBdescribe_entity sorts the supertype list with LISTsort(…, cmp_python_mro) before emitting the bases
   ancestorsLast    LIBdescribe_entity emits the bases through python_base_order( supertypes )
   enumRenameInSchemaOk   the last case of ENUMcanBeProcessed (multpass_python.c): `inSchema( a, s ) || a->search_id == PROCESSED`
+  typeRescan       SCOPEPrint (classes_wrapper_python.cc) repeats its scan over the defined types until none is skipped
   inheritedOnce    LIBdescribe_entity takes the inherited constructor parameters from ENTITYget_inherited_attributes_once
                    (each inherited attribute once) instead of ENTITYget_all_attributes of every supertype (once per path)
 """
@@ -61,6 +62,21 @@ def extract(repo):
         rename_ok = False
     else:
         raise ValueError("ENUMcanBeProcessed: unsupported final case: " + tail[:120])
+    i = w.find("void SCOPEPrint( Scope scope, FILES * files, Schema schema ) {")
+    j = w.find("/* fill in the values for the type descriptors */", i)
+    if i < 0 or j < 0:
+        raise ValueError("SCOPEPrint: the defined-type section was not found")
+    sec = re.sub(r"\s+", " ", re.sub(r"//[^\n]*|/\*.*?\*/", "", w[i:j], flags=re.S))
+    emit = r"i = TYPEget_head\( t \); if\( \( !i \|\| i->search_id == PROCESSED \) && t->search_id == CANPROCESS \) \{ TYPEprint_descriptions\( t, files, schema \); t->search_id = PROCESSED; \}"
+    if not re.search(emit, sec):
+        raise ValueError("SCOPEPrint: the guarded emission of a defined type (head absent or PROCESSED) is no longer as modelled")
+    if re.search(r"while\( 1 \) \{ skipped = 0; SCOPEdo_types", sec) and re.search(r"else if\( t->search_id == CANPROCESS \) \{ skipped\+\+; \}", sec) \
+            and re.search(r"if\( !skipped \) \{ break; \}", sec):
+        rescan = True
+    elif "while" not in sec and sec.count("SCOPEdo_types") == 1:
+        rescan = False
+    else:
+        raise ValueError("SCOPEPrint: unsupported control structure around the defined types")
     lst = ", ".join('"%s"' % i for i in items)
     out = f"""-- GENERATED by tools/extract.d/genpy.py from src/exp2python/src/classes_python.c, classes_wrapper_python.cc
 namespace StepModel.Generated
@@ -77,6 +93,9 @@ def ancestorsLast : Bool := {"true" if anc_last else "false"}
 /-- `ENUMcanBeProcessed`, last case: a not yet visited renamed enumeration whose original is in the schema being processed
 counts as processable in this pass -/
 def enumRenameInSchemaOk : Bool := {"true" if rename_ok else "false"}
+/-- `SCOPEPrint` rescans the symbol table until no defined type had to be skipped (a rename is written only after the type
+it renames); `false`: one scan, the skipped ones are written later in dictionary order -/
+def typeRescan : Bool := {"true" if rescan else "false"}
 /-- inherited constructor parameters are taken once per attribute (not once per supertype path) -/
 def inheritedOnce : Bool := {"true" if once else "false"}
 
